@@ -105,8 +105,12 @@ def __extract_segments(
         "ciphertext": urlsafe_b64decode(base64_segments["ciphertext"]),
         "tag": urlsafe_b64decode(base64_segments["tag"]),
     }
+    # keep the received octets: they are the Additional Authenticated Data
+    aad_segment = to_bytes(data["protected"])
     if "aad" in data:
         aad = urlsafe_b64decode(to_bytes(data["aad"]))
+        aad_segment = aad_segment + b"." + to_bytes(data["aad"])
     else:
         aad = None
+    base64_segments["aad"] = aad_segment
     return base64_segments, bytes_segments, aad
